@@ -169,6 +169,21 @@ def directed_shapes():
         for c in calls:
             out.append(('arity', dcl + 'rule r {\n  %s\n}\n' % c, d))
             out.append(('arity', dcl + 'rule r {\n  n == 3\n  o {\n    %s or a == 1\n  }\n}\n' % c.replace('(o', '(this').replace('n', 'a'), d))
+    # `keys` filters: every operator against right-hand sides that are a literal, a list, a regex, a variable / query with
+    # several values, one value, NO value at all, an unresolved path
+    kdoc = json.dumps({'Resources': {'bucket': {'Type': 'T', 'n': 1}, 'queue': {'Type': 'U', 'n': 2}}, 'Allowed': [{'Kind': 'bucket', 'Name': 'bucket'}, {'Kind': 'q', 'Name': 'queue'}],
+                       'Empty': [], 'One': 'bucket'})
+    rhss = ['"bucket"', '["bucket", "queue"]', '/^b/', '%wanted', '%none', '%one', 'Allowed[*].Name', "Allowed[ Kind == 'zzz' ].Name", 'Missing.path', 'Empty[*]', '%lit']
+    for op in ('==', '!=', 'in', 'not in', '>', '<='):
+        for rhs in rhss:
+            rules = ("let wanted = Allowed[ Kind == 'bucket' ].Name\nlet none = Allowed[ Kind == 'zzz' ].Name\nlet one = One\nlet lit = \"queue\"\n"
+                     "rule r {\n  Resources[ keys %s %s ].Type == 'T'\n}\nrule s {\n  some Resources[ keys %s %s ].n >= 1\n  Resources[ keys %s %s ] !empty\n}\n" % (op, rhs, op, rhs, op, rhs))
+            out.append(('keys-filter', rules, kdoc))
+    # patterns that exhaust the regex engine's backtracking budget: an error (or no match), never a hang
+    hdoc = json.dumps({'s': 'a' * 40, 'l': ['a' * 30, 'b']})
+    for pat in ('(a+)+\\1b', '(a*)*\\1c', '(?=(a+)+b)a'):
+        out.append(('regex-limit', 'let r = regex_replace(s, "%s", "x")\nrule t {\n  %%r exists\n}\n' % pat, hdoc))
+        out.append(('regex-limit', 'rule t {\n  s == /%s/\n}\nrule u {\n  l[*] != /%s/\n  s in [/%s/]\n}\n' % (pat.replace('\\\\', '\\'), pat.replace('\\\\', '\\'), pat.replace('\\\\', '\\')), hdoc))
     return out
 
 
